@@ -350,7 +350,14 @@ pub fn record_c02(out: &str, seed: u64, n: usize) {
             if obs == json!("T") && seen.insert(rule.clone()) {
                 nontrivial += 1;
             }
-            let ev = json!({"rule": rule, "left": left, "body": body, "right": right, "url": u.url, "hs": u.hs, "he": u.he, "obs": obs});
+            // the same rule behind the token index (an engine holding only this rule): "T"/"F", or "-" when the
+            // request is not eligible (unsupported scheme) or the line is not a rule for the list parser
+            let eng = if req.is_supported && adblock::lists::parse_filter(&rule, true, ParseOptions::default()).is_ok() {
+                match guarded(|| Engine::from_rules_parametrised([&rule], ParseOptions::default(), true, rng.0 % 2 == 0).check_network_request(&req).matched) {
+                    Ok(true) => "T", Ok(false) => "F", Err(_) => "panic",
+                }
+            } else { "-" };
+            let ev = json!({"rule": rule, "left": left, "body": body, "right": right, "url": u.url, "hs": u.hs, "he": u.he, "obs": obs, "eng": eng});
             if samples.len() < 3 && obs == json!("T") {
                 samples.push(ev.clone());
             }
